@@ -162,6 +162,7 @@ func (l *logger) log(msg string, fields []zap.Field) {
 	// a slow log sink (only for messages the library writes with no lock held: a sleeper under e.mu would keep the
 	// simulated clock from advancing)
 	if d := l.in.spec.LogDelay[fmt.Sprint(c)]; d > 0 {
+		l.in.w.tr.rec("envmark", 15, int64(l.in.idx), d)
 		time.Sleep(time.Duration(d))
 	}
 }
